@@ -34,7 +34,7 @@ type GoText struct {
 func goLexParse(s string) (res GoText) {
 	defer func() {
 		if r := recover(); r != nil {
-			res.Panic = fmt.Sprint(r)
+			res.Panic = panicText(r)
 			res.Accept = false
 		}
 	}()
@@ -254,7 +254,7 @@ func safeText(err error) (s string) {
 func errorText(err error) (text string, fail string) {
 	defer func() {
 		if r := recover(); r != nil {
-			fail = fmt.Sprintf("Error() panicked: %v", r)
+			fail = "Error() panicked: " + panicText(r)
 		}
 	}()
 	text = err.Error()
@@ -270,7 +270,7 @@ func observeProcess(ev *parser.Evaluator, obj map[string]interface{}) (o Obs) {
 	func() {
 		defer func() {
 			if r := recover(); r != nil {
-				o.Escaped = fmt.Sprintf("Process: %v", r)
+				o.Escaped = "Process: " + panicText(r)
 			}
 		}()
 		v, err := ev.Process(obj)
@@ -288,7 +288,7 @@ func observeProcess(ev *parser.Evaluator, obj map[string]interface{}) (o Obs) {
 	func() {
 		defer func() {
 			if r := recover(); r != nil {
-				o.Escaped = fmt.Sprintf("LastDebugErr: %v", r)
+				o.Escaped = "LastDebugErr: " + panicText(r)
 			}
 		}()
 		d := ev.LastDebugErr()
@@ -307,7 +307,7 @@ func observeProcess(ev *parser.Evaluator, obj map[string]interface{}) (o Obs) {
 func newEvaluator(rule string) (ev *parser.Evaluator, err error, escaped string) {
 	defer func() {
 		if r := recover(); r != nil {
-			escaped = fmt.Sprintf("NewEvaluator: %v", r)
+			escaped = "NewEvaluator: " + panicText(r)
 		}
 	}()
 	ev, err = parser.NewEvaluator(rule)
@@ -344,7 +344,7 @@ func evalFresh(rule string, obj map[string]interface{}) Obs {
 func rulesEvaluate(rule string, obj map[string]interface{}) (v bool, e string, esc string) {
 	defer func() {
 		if r := recover(); r != nil {
-			esc = fmt.Sprintf("rules.Evaluate: %v", r)
+			esc = "rules.Evaluate: " + panicText(r)
 		}
 	}()
 	callLog = callLog[:0]
@@ -355,7 +355,7 @@ func rulesEvaluate(rule string, obj map[string]interface{}) (v bool, e string, e
 func parserEvaluate(rule string, obj map[string]interface{}) (v bool, esc string) {
 	defer func() {
 		if r := recover(); r != nil {
-			esc = fmt.Sprintf("parser.Evaluate: %v", r)
+			esc = "parser.Evaluate: " + panicText(r)
 		}
 	}()
 	callLog = callLog[:0]
@@ -384,4 +384,15 @@ func evalOn(rule string, obj map[string]interface{}, poison []map[string]interfa
 		observeProcess(ev, p)
 	}
 	return observeProcess(ev, obj)
+}
+
+// panicText formats a recovered panic value; the value may be a Stringer whose String() panics with itself, on which fmt
+// panics again - then only its type is given
+func panicText(r interface{}) (s string) {
+	defer func() {
+		if recover() != nil {
+			s = fmt.Sprintf("panic value of type %T (formatting it panics again)", r)
+		}
+	}()
+	return fmt.Sprint(r)
 }
